@@ -649,6 +649,60 @@ def _round_h2_rules(ck, sd):
               cell="|".join(classes))
     ck.floor("dispatcher_arms", n_arms, 5)
 
+    # R13b a leaf codec renders the value it was given. Between the type test and the rendering call the value is not replaced by another one: the parameter is
+    # not re-bound, and nothing from the table of value-changing calls is applied to it (r9_C15: `obj = obj.astimezone(UTC)` before isoformat() - the same instant
+    # comes back with another offset, another wall-clock reading and, for a value at the edge of the range, an OverflowError where the value used to round-trip).
+    # The table lists the standard library's normalising / projecting calls on the accepted types; rendering calls (isoformat, str, b64encode, to_dict) are not in it
+    ALTERING_METHODS = {"astimezone", "replace", "normalize", "quantize", "to_integral", "to_integral_value", "to_integral_exact", "lower", "upper", "strip", "lstrip",
+                        "rstrip", "casefold", "title", "capitalize", "swapcase", "expandtabs", "date", "time", "timetz", "timestamp", "timetuple", "utctimetuple",
+                        "toordinal", "conjugate", "__round__", "__int__", "__float__", "__trunc__", "__abs__", "__neg__", "encode", "decode", "translate", "zfill"}
+    ALTERING_FUNCS = {"int", "float", "round", "abs", "bool", "sorted", "set", "frozenset", "reversed", "min", "max", "sum", "hash", "len", "ord", "chr", "complex"}
+    n_leaf_enc = 0
+    for cname_, cinfo_ in sd.classes.items():
+        if not cname_.endswith("Codec") or "encode" not in cinfo_.methods or cinfo_.methods["encode"].cls is not cinfo_:
+            continue
+        fe_ = cinfo_.methods["encode"]
+        params_ = [a.arg for a in fe_.node.args.args]
+        if len(params_) < 2:
+            continue
+        subj_ = params_[-1]
+        if not any(isinstance(n, ast.Call) and ast.unparse(n.func) == "EncodedValue" for n in ast.walk(fe_.node)):
+            continue
+        n_leaf_enc += 1
+        alt_ = []
+        for n in ast.walk(fe_.node):
+            tgts = []
+            if isinstance(n, ast.Assign):
+                tgts = [x for t_ in n.targets for x in ast.walk(t_)]
+            elif isinstance(n, (ast.AugAssign, ast.AnnAssign, ast.NamedExpr, ast.For)):
+                tgts = list(ast.walk(n.target))
+            elif isinstance(n, ast.MatchAs) and n.name == subj_:
+                alt_.append(f"line {getattr(n, 'lineno', '?')}: the pattern re-binds `{subj_}`")
+            elif isinstance(n, ast.withitem) and n.optional_vars is not None:
+                tgts = list(ast.walk(n.optional_vars))
+            if any(isinstance(x, ast.Name) and x.id == subj_ for x in tgts) and not (isinstance(n, ast.Assign) and isinstance(n.value, ast.Name) and n.value.id == subj_):
+                alt_.append(f"line {n.lineno}: `{ast.unparse(n)[:70]}` replaces the value before it is rendered")
+            if isinstance(n, ast.Call) and isinstance(n.func, ast.Attribute) and isinstance(n.func.value, ast.Name) and n.func.value.id == subj_ and n.func.attr in ALTERING_METHODS:
+                alt_.append(f"line {n.lineno}: `{ast.unparse(n)[:70]}` is a value-changing call on the value to be recorded")
+            if isinstance(n, ast.Call) and isinstance(n.func, ast.Name) and n.func.id in ALTERING_FUNCS and any(isinstance(a, ast.Name) and a.id == subj_ for a in n.args):
+                par_is_test = False
+                alt_.append(f"line {n.lineno}: `{ast.unparse(n)[:70]}` projects the value to be recorded")
+        # (a projection used only to DECIDE - `if len(obj) > N: raise` - changes nothing that is recorded: judged where it flows)
+        flows_ = set()
+        for n in ast.walk(fe_.node):
+            if isinstance(n, ast.Call) and ast.unparse(n.func) == "EncodedValue":
+                flows_ |= {id(x) for x in ast.walk(n)}
+            if isinstance(n, ast.Assign):
+                flows_ |= {id(x) for x in ast.walk(n.value)}
+        alt_final = []
+        for n in ast.walk(fe_.node):
+            if isinstance(n, ast.Call) and isinstance(n.func, ast.Name) and n.func.id in ALTERING_FUNCS and any(isinstance(a, ast.Name) and a.id == subj_ for a in n.args) and id(n) not in flows_:
+                txt_ = f"line {n.lineno}: `{ast.unparse(n)[:70]}` projects the value to be recorded"
+                alt_ = [a for a in alt_ if a != txt_]
+        ck.ob("R13.leaf-encoder-renders-the-value-it-was-given", fn_construct(fe_), not alt_,
+              "; ".join(alt_[:2]) + ": what is written is the text of ANOTHER value - it is accepted and comes back changed (or is rejected where it used to round-trip)", cell=cname_)
+    ck.floor("leaf_and_container_encoders", n_leaf_enc, 5)
+
     # R14 an aware datetime is written with isoformat(): only the numeric UTC offset of its tzinfo survives, fromisoformat() rebuilds a fixed-offset
     # timezone. A zone with rules (ZoneInfo, any tzinfo with DST) comes back as a different object that is unequal in the repeated hour and gives other
     # results under wall-clock arithmetic. Necessary condition for either remedy (reject, or record the zone): the encoder looks at .tzinfo
